@@ -26,7 +26,7 @@ import math
 
 import numpy as np
 
-from xpmc import lattice
+from xpmc import lattice, oracle
 from xpmc import x_C19_gas as gas
 from xpmc.engine import Digest
 from xpmc.solvers import construct, call, Inadmissible
@@ -359,6 +359,25 @@ def run_task(task):
         res["digest"] = P.dg.hex()
         return res
 
+    # "all evaluation points": the value at a point must not depend on the order in which the points are listed.  A 41-point
+    # arc is evaluated in ascending, descending and stride-permuted order and compared bit for bit (added after the seeded
+    # change S-C19-3, an early exit from the point loop that is valid only for points sorted by ray angle)
+    pending_order = []          # emitted once the defect signature of the pair is known (so recorded defects keep their shadow)
+    try:
+        phis0 = np.linspace(-1.2, 1.2, 41)
+        base_ = P.at(phis0)
+        for oname, perm in (("descending", np.arange(41)[::-1]), ("stride-permuted", (np.arange(41) * 16) % 41)):
+            got = P.at(phis0[perm])
+            # fan-interior states come from a per-point root solve whose starting guess is carried along the point list: the
+            # last bits legitimately depend on the order (measured <= 3e-9); class-B tolerance 1e-6
+            mm = oracle.mismatch(got, base_[perm], floor=1e-9)
+            same_ = mm <= 1e-6
+            C["order_variants_compared"] = C.get("order_variants_compared", 0) + 1
+            if not same_.all():
+                badphi = phis0[perm][(~same_).any(axis=1)]
+                pending_order.append(({"order": oname}, float(mm.max()), {"n_points_differing": int(len(badphi))}, badphi))
+    except SolverRaised:
+        pass          # the scan below classifies a raising solver
     try:
         plateaus, trans = locate(P, C)
     except SolverRaised as sr:
@@ -392,6 +411,13 @@ def run_task(task):
     sig = signature(s, morph, cd_attr, p_attr, bref, tref)
     if sig:
         C["signature:" + sig] = 1
+    for w_, v_, d_, badphi in pending_order:
+        # where do the order-dependent points lie?  strictly inside a located fan (the per-point root solve with a carried
+        # starting guess: recorded defect riemann2d-fan-interior-depends-on-point-order) or elsewhere (uniform regions)
+        fans = [(tr["lo"], tr["hi"]) for tr in trans if tr["kind"] == "fan"]
+        inside = [any(lo - 1e-9 <= ph <= hi + 1e-9 for lo, hi in fans) for ph in badphi]
+        w_ = dict(w_, points="fan-interior-only" if all(inside) else "also-outside-fans")
+        violation("consistency:value-independent-of-point-order", w_, v_, 1e-6, d_)
     C["morphology:" + morph] = 1
     C["pairs_with_returned_solution"] = 1
     k = len(trans)
